@@ -7,6 +7,7 @@ import (
 	"os"
 	"reflect"
 	"regexp"
+	"strconv"
 	"strings"
 	"testing"
 	"time"
@@ -160,11 +161,19 @@ func compare(t reflect.Type, wire []byte, simple bool, sizes []int, bufSize int,
 	a := decodeWith(hio.NewDecoder(data).Simple(simple), t, sentinel)
 	rd := &chunkReader{data: data, sizes: sizes}
 	b := decodeWith(hio.NewDecoderFromReader(rd, bufSize).Simple(simple), t, sentinel)
+	beyond := announcesBeyond(data)
 	switch {
+	case (a.errClass == "") != (b.errClass == ""):
+		return rd.Bounds, fmt.Sprintf("error outcome differs: slice %q (%s) vs reader %q (%s)", a.errClass, a.errText, b.errClass, b.errText)
+	case a.errClass == "panic" && b.errClass == "panic":
+		return rd.Bounds, "" // both panic: charged to C04, not to this property
+	case a.errClass != "" && beyond:
+		// a count or length announces more than the (truncated) input holds: the slice decoder sees that at once
+		// and stops, the reader cannot know and reads on until the data ends. Both decodes fail; which error is
+		// reported first and what the half-built value looks like is not comparable between the two
+		return rd.Bounds, ""
 	case a.errClass != b.errClass:
 		return rd.Bounds, fmt.Sprintf("error outcome differs: slice %q (%s) vs reader %q (%s)", a.errClass, a.errText, b.errClass, b.errText)
-	case a.errClass == "panic":
-		return rd.Bounds, "" // both panic: charged to C04, not to this property
 	case a.errClass != "" && addrRe.ReplaceAllString(a.node.String(), "0x?") == addrRe.ReplaceAllString(b.node.String(), "0x?"):
 		// a failed decode may leave the textual form of a pointer (an address) in a string; addresses differ between runs
 		return rd.Bounds, ""
@@ -176,6 +185,19 @@ func compare(t reflect.Type, wire []byte, simple bool, sizes []int, bufSize int,
 		return rd.Bounds, ""
 	}
 	return rd.Bounds, ""
+}
+
+var countTokRe = regexp.MustCompile(`[absmco]([0-9]+)["{]?`)
+
+// announcesBeyond: some count or length in the (truncated) stream exceeds the number of bytes that follow it.
+func announcesBeyond(data []byte) bool {
+	for _, m := range countTokRe.FindAllSubmatchIndex(data, -1) {
+		n, err := strconv.Atoi(string(data[m[2]:m[3]]))
+		if err != nil || n > len(data)-m[1] {
+			return true
+		}
+	}
+	return false
 }
 
 func trunc(s string) string {
